@@ -2791,11 +2791,13 @@ class Parameters:
         values = self_.values()
         restore = {k: values[k] for k, v in kwargs.items() if k in values}
 
+        assigned = []
         try:
             for (k, v) in kwargs.items():
                 if k not in self_:
                     raise ValueError(f"{k!r} is not a parameter of {self_.cls.__name__}")
                 setattr(self_or_cls, k, v)
+                assigned.append(k)
         finally:
             # Also when a value is rejected or a watcher raises: restore the
             # batching state found on entry (a surrounding batch stays open),
@@ -2809,7 +2811,10 @@ class Parameters:
                 for tp in trigger_params:
                     p = self_[tp]
                     p._mode = 'reset'
-                    setattr(self_or_cls, tp, p._autotrigger_reset_value)
+                    if tp in assigned:
+                        # (an Event whose own value was refused, or that was
+                        # never reached, keeps the value it had)
+                        setattr(self_or_cls, tp, p._autotrigger_reset_value)
                     # At class level an assignment (above, or this very
                     # reset) may have given the class its own copy of an
                     # inherited Event: none of the objects involved may
